@@ -36,6 +36,17 @@ type FuncContract struct {
 	Line     int
 	Lets     []*Clause
 	Options  map[string]string
+	Ghosts   []*GhostClause
+}
+
+// GhostClause: ghost state attached to a session key. Whenever the function
+// (inlined or not) emits an event matching Pattern, the ghost variable Name
+// becomes Value (evaluated over the function's parameters).
+type GhostClause struct {
+	Name    string
+	Pattern *Node
+	Value   *Node
+	Line    int
 }
 
 type SpecMacro struct {
@@ -128,10 +139,10 @@ func (cs *ContractSet) parseFile(path, rel string) error {
 	}
 	// join continuation lines
 	var joined []rawLine
-	keywords := map[string]bool{"func": true, "property": true, "requires": true, "ensures": true, "invariant": true, "panics_if": true, "let": true, "spec": true, "option": true}
+	keywords := map[string]bool{"func": true, "property": true, "requires": true, "ensures": true, "invariant": true, "panics_if": true, "let": true, "spec": true, "option": true, "ghost": true}
 	for _, l := range lines {
 		first := l.text
-		if i := strings.IndexAny(first, " [("); i > 0 {
+		if i := strings.IndexAny(first, " \t["); i > 0 {
 			first = first[:i]
 		}
 		if keywords[first] || len(joined) == 0 {
@@ -197,6 +208,23 @@ func (cs *ContractSet) parseFile(path, rel string) error {
 					return fmt.Errorf("%s:%d: %v", path, l.line, err)
 				}
 				cur.Clauses = append(cur.Clauses, &Clause{Kind: word, Text: rest, Expr: n, Line: l.line, Label: word})
+			case word == "ghost":
+				// ghost <name> at <EventPattern> := <expr>
+				name, r2 := splitWord(rest)
+				at, r3 := splitWord(r2)
+				i := strings.Index(r3, ":=")
+				if at != "at" || i < 0 {
+					return fmt.Errorf("%s:%d: ghost syntax: ghost <name> at <event pattern> := <expr>", path, l.line)
+				}
+				pat, err := parseExpr("emits " + strings.TrimSpace(r3[:i]))
+				if err != nil {
+					return fmt.Errorf("%s:%d: %v", path, l.line, err)
+				}
+				val, err := parseExpr(r3[i+2:])
+				if err != nil {
+					return fmt.Errorf("%s:%d: %v", path, l.line, err)
+				}
+				cur.Ghosts = append(cur.Ghosts, &GhostClause{Name: name, Pattern: pat, Value: val, Line: l.line})
 			case word == "let":
 				i := strings.IndexByte(rest, '=')
 				if i < 0 {
